@@ -51,6 +51,8 @@ type GhostVar struct {
 	Name string
 	Sort string // int | bool | string | intarray | strarray
 	Init ast.Expr
+	// External: models state outside the program (the file system): any call without contract may change it
+	External bool
 }
 
 type GhostUpdate struct {
@@ -334,7 +336,11 @@ func (cs *ContractSet) loadContractFile(path, pkgPath string) error {
 			if len(f) < 2 {
 				return fmt.Errorf("%s:%d: ghostglobal name sort", path, it.no)
 			}
-			cs.GhostGlobals = append(cs.GhostGlobals, GhostVar{Name: f[0], Sort: strings.Join(f[1:], " ")})
+			gv := GhostVar{Name: f[0], Sort: f[1]}
+			if len(f) > 2 && f[2] == "external" {
+				gv.External = true
+			}
+			cs.GhostGlobals = append(cs.GhostGlobals, gv)
 			cur, curLemma = nil, nil
 		case strings.HasPrefix(t, "guarded "):
 			// guarded Cache.{a,b,c} by Cache.Mutex
@@ -521,12 +527,12 @@ func (cs *ContractSet) loadContractFile(path, pkgPath string) error {
 				// assert at <where>: expr
 				rest := strings.TrimPrefix(t, "assert ")
 				where := ""
-				if strings.HasPrefix(rest, "at ") {
+				if strings.HasPrefix(rest, "at ") || strings.HasPrefix(rest, "after writes of ") {
 					i := strings.Index(rest, ":")
 					if i < 0 {
 						return fmt.Errorf("%s:%d: assert at …: expr", path, it.no)
 					}
-					where = strings.TrimSpace(rest[3:i])
+					where = strings.TrimSpace(strings.TrimPrefix(rest[:i], "at "))
 					rest = rest[i+1:]
 				}
 				c, err := mkClause(rest, nil)
